@@ -199,7 +199,8 @@ def snell(n1, n2, theta1):
         raise Exception('The real part of *n1* and *n2* can not be <= 0.')
 
     if np.all(np.isreal(n1)) and np.all(np.isreal(n2)):
-        theta2 = np.arcsin(n1 * np.sin(np.deg2rad(theta1)) / n2)
+        theta2 = np.arcsin(
+            np.real(n1) * np.sin(np.deg2rad(theta1)) / np.real(n2))
 
     elif np.all(np.isreal(n1)):
         mr2 = (np.real(n2) / n1)**2
